@@ -223,21 +223,15 @@ class PoolWakeState {
     return (target <= lastGroup) ? target : -1;
   }
 
-  // Wakes one target group: bumps the group's epoch and issues bumpAndWakeN
-  // only if the sleepMask is non-zero. Called by cascade-host lambdas.
+  // Wakes one target group: bumps the group's epoch and wakes its waiters.
+  // Called by cascade-host lambdas, which are only staged when the pool has
+  // sleepers. The group's sleep mask is not consulted: a thread claimed by
+  // claimAndWakeOne() can still be parked with its bit cleared (the kernel
+  // picks which waiter of the group-shared futex a wake releases), so a mask
+  // of zero does not mean that nobody in the group is parked.
   void cascadeWake(int32_t targetGroup) {
     DISPENSO_VERIF_POINT("PwCascadeReadMask", this);
-    uint64_t mask =
-        groupStates_[static_cast<size_t>(targetGroup)].sleepMask.load(std::memory_order_relaxed);
-    auto& waiter = waiterFor(targetGroup * groupSize_);
-    if (mask == 0) {
-      waiter.bump();
-    } else {
-      // The group's sleepers share one futex word and the kernel picks which waiters a wake
-      // releases, so waking only as many waiters as there are targeted sleepers can release
-      // non-targeted ones and leave a targeted sleeper parked with work in its ring.
-      waiter.bumpAndWakeAll();
-    }
+    waiterFor(targetGroup * groupSize_).bumpAndWakeAll();
   }
 
   // Single-pass wake for scheduleBulkToRings. Bumps every affected group's
